@@ -220,9 +220,56 @@ Lemma put_all_ok : forall pieces st, unit_ok (fst st) -> Forall unit_ok pieces -
 Proof.
   induction pieces as [|p r IH]; intros st Ho Hp; [exact Ho|]. inversion Hp; subst. simpl. apply IH; [apply put_ok; assumption|assumption].
 Qed.
+(* digits *)
+Definition plainc (c : N) : bool := (32 <=? c) && (c <=? 126) && negb (c =? 34) && negb (c =? 92).
+Lemma plainc_body : forall l, forallb plainc l = true -> lex_run S_body l = Some S_body.
+Proof.
+  induction l as [|c l IH]; intros H; [reflexivity|]. simpl in H. apply andb_prop in H. destruct H as [Hc Hl].
+  unfold plainc in Hc. apply andb_prop in Hc. destruct Hc as [Hc N92]. apply andb_prop in Hc. destruct Hc as [Hc N34].
+  apply andb_prop in Hc. destruct Hc as [L U]. apply N.leb_le in L. apply N.leb_le in U.
+  apply negb_true_iff in N34, N92.
+  change (lex_run S_body (c :: l)) with (match lex_step S_body c with Some st' => lex_run st' l | None => None end).
+  assert (E : lex_step S_body c = Some S_body).
+  { unfold lex_step. rewrite N34, N92.
+    assert (c <? 32 = false) as -> by (apply N.ltb_ge; lia). assert (c <? 128 = true) as -> by (apply N.ltb_lt; lia). reflexivity. }
+  rewrite E. apply IH, Hl.
+Qed.
+Lemma dec_aux_plain : forall fuel n acc, forallb plainc acc = true -> forallb plainc (dec_aux fuel n acc) = true.
+Proof.
+  induction fuel as [|f IH]; intros n acc H; [exact H|]. cbn [dec_aux].
+  assert (P : plainc (48 + n mod 10) = true).
+  { assert (Hm : n mod 10 < 10) by (apply N.mod_lt; discriminate). remember (n mod 10) as m eqn:Em. clear Em. unfold plainc.
+    assert ((32 <=? 48 + m) = true) as -> by (apply N.leb_le; lia).
+    assert ((48 + m <=? 126) = true) as -> by (apply N.leb_le; lia).
+    assert ((48 + m =? 34) = false) as -> by (apply N.eqb_neq; lia).
+    assert ((48 + m =? 92) = false) as -> by (apply N.eqb_neq; lia). reflexivity. }
+  destruct (n / 10 =? 0); [cbn [forallb]; rewrite P; exact H|]. apply IH. cbn [forallb]. rewrite P. exact H.
+Qed.
+Lemma hex_digit_plain : forall d, d < 16 -> plainc (hex_digit d) = true.
+Proof.
+  intros d H. unfold hex_digit, plainc. destruct (d <? 10) eqn:E.
+  - apply N.ltb_lt in E.
+    assert ((32 <=? 48 + d) = true) as -> by (apply N.leb_le; lia). assert ((48 + d <=? 126) = true) as -> by (apply N.leb_le; lia).
+    assert ((48 + d =? 34) = false) as -> by (apply N.eqb_neq; lia). assert ((48 + d =? 92) = false) as -> by (apply N.eqb_neq; lia). reflexivity.
+  - apply N.ltb_ge in E.
+    assert ((32 <=? 87 + d) = true) as -> by (apply N.leb_le; lia). assert ((87 + d <=? 126) = true) as -> by (apply N.leb_le; lia).
+    assert ((87 + d =? 34) = false) as -> by (apply N.eqb_neq; lia). assert ((87 + d =? 92) = false) as -> by (apply N.eqb_neq; lia). reflexivity.
+Qed.
+Lemma hex_aux_plain : forall fuel n acc, forallb plainc acc = true -> forallb plainc (hex_aux fuel n acc) = true.
+Proof.
+  induction fuel as [|f IH]; intros n acc H; [exact H|]. cbn [hex_aux].
+  assert (P : plainc (hex_digit (n mod 16)) = true) by (apply hex_digit_plain, N.mod_lt; discriminate).
+  destruct (n / 16 =? 0); [cbn [forallb]; rewrite P; exact H|]. apply IH. cbn [forallb]. rewrite P. exact H.
+Qed.
+
 Lemma arg_pieces_ok : forall a, Forall unit_ok (arg_pieces a).
 Proof.
-  intros [raw|c]; simpl.
+  intros [raw|c|[nm|] v|v]; simpl.
+  4:{ destruct (v =? 0); repeat constructor. unfold unit_ok. apply plainc_body. simpl. apply hex_aux_plain. reflexivity. }
+  4:{ destruct (100000 <? v); repeat constructor; unfold unit_ok; apply plainc_body.
+      - simpl. apply hex_aux_plain. reflexivity.
+      - apply dec_aux_plain. reflexivity. }
+  3:{ constructor; [reflexivity|]. apply Forall_forall. intros x Hx. apply in_map_iff in Hx. destruct Hx as [c [<- _]]. apply esc_char_body. }
   - destruct (is_null_str raw); [repeat constructor|]. constructor; [reflexivity|].
     apply Forall_app. split; [|repeat constructor].
     apply Forall_forall. intros x Hx. apply in_map_iff in Hx. destruct Hx as [c [<- _]]. apply esc_char_body.
@@ -257,3 +304,9 @@ Proof.
   - apply N.leb_gt in E1. split; lia.
   - apply N.leb_gt in E1. apply N.leb_gt in E2. rewrite app_length, Nat2N.inj_add. split; lia.
 Qed.
+
+(* the code as found (before 767f11d) put the symbol name of a pointer argument raw into the JSON string *)
+Theorem json_ptr_legacy_refuted :
+  json_string_ok (quoted ([40] ++ ptr_text_legacy [102; 34; 103] ++ [41])) = false
+  /\ json_string_ok (quoted (args_text true [APtr (Some [102; 34; 103]) 4198912])) = true.
+Proof. vm_compute. split; reflexivity. Qed.
